@@ -393,6 +393,12 @@ asn1f_fix_constructed(arg_t *arg) {
 	case ASN_CONSTR_SET:
 	case ASN_CONSTR_CHOICE:
 		break;
+	case ASN_CONSTR_SEQUENCE_OF:
+	case ASN_CONSTR_SET_OF:
+		/* Only the tagging mode of the element type needs fixing */
+		ret = asn1f_fix_constr_tag(arg, 0);
+		RET2RVAL(ret, rvalue);
+		return rvalue;
 	default:
 		return 0;
 	}
